@@ -73,6 +73,11 @@ def main(argv):
                     ls = [l.strip() for l in out.splitlines() if l.startswith("   violated:") or l.startswith("ANCHOR-MISSING")]
                     lines += ls
                     fired = fired or rc != 0
+                if any("facts unavailable" in l or "fact extraction failed" in l for l in lines):
+                    rec["status"] = "skipped: mutant does not compile"
+                    results.append(rec)
+                    print("%s %-34s SKIPPED (mutant does not compile)" % (p, name))
+                    continue
                 rec["fired"] = fired
                 rec["violations"] = [l[:240] for l in lines[:6]]
                 okx = fired == rec["expect_fires"]
